@@ -291,7 +291,158 @@ func extractC13(c *Ctx) error {
 	if err := c13SignBytesChannels(c); err != nil {
 		return err
 	}
-	return c13ConfirmChecks(c)
+	if err := c13ConfirmChecks(c); err != nil {
+		return err
+	}
+	return c13BatchRecordWriters(c)
+}
+
+// c13BatchRecordWriters: who writes a batch record (and with it a BytesToSign the queries will
+// serve): StoreBatch -- called by BuildOutgoingTXBatch and by the genesis import only -- and the
+// in-place rewrite in UpdateBatchGasEstimate.  Both keeper functions publish and archive in ONE
+// cache context (all or nothing).  The genesis import either archives the BytesToSign of every
+// batch it stores (genesis_archives_live = true) or does not archive at all (false).
+func c13BatchRecordWriters(c *Ctx) error {
+	kfs, err := c.ParseDir("x/skyway/keeper")
+	if err != nil {
+		return err
+	}
+	var callers, setters []string
+	for _, f := range kfs {
+		if strings.Contains(c.Fset.Position(f.Pos()).Filename, "verif_hooks") {
+			continue
+		}
+		for _, d := range f.Decls {
+			fd, ok := d.(*ast.FuncDecl)
+			if !ok || fd.Body == nil {
+				continue
+			}
+			if len(Calls(fd.Body, "StoreBatch")) > 0 {
+				callers = append(callers, fd.Name.Name)
+			}
+			// store.Set(<key derived from GetOutgoingTxBatchKey>, ..)
+			usesKey := len(Calls(fd.Body, "GetOutgoingTxBatchKey")) > 0
+			if usesKey {
+				for _, ce := range Calls(fd.Body, "Set") {
+					if c13norm(c, ce.Fun) == "store.Set" {
+						setters = append(setters, fd.Name.Name)
+					}
+				}
+			}
+		}
+	}
+	sort.Strings(callers)
+	sort.Strings(setters)
+	if strings.Join(callers, ",") != "BuildOutgoingTXBatch,initBridgeDataFromGenesis" {
+		return fmt.Errorf("callers of StoreBatch: %v, expected BuildOutgoingTXBatch and initBridgeDataFromGenesis", callers)
+	}
+	if strings.Join(setters, ",") != "StoreBatch,UpdateBatchGasEstimate" {
+		return fmt.Errorf("functions writing a batch record (store.Set with GetOutgoingTxBatchKey): %v, expected StoreBatch and UpdateBatchGasEstimate", setters)
+	}
+	// one cache context for record and archive
+	bf, err := c.Parse("x/skyway/keeper/batch.go")
+	if err != nil {
+		return err
+	}
+	for _, fn := range []string{"BuildOutgoingTXBatch", "UpdateBatchGasEstimate"} {
+		fd := FindFunc(bf, "Keeper", fn)
+		if fd == nil || len(fd.Body.List) < 2 {
+			return fmt.Errorf("%s not found", fn)
+		}
+		if c13norm(c, fd.Body.List[0]) != "ctx,commit:=sdk.UnwrapSDKContext(c).CacheContext()" {
+			return fmt.Errorf("%s: does not start with ctx, commit := sdk.UnwrapSDKContext(c).CacheContext()", fn)
+		}
+		ds, ok := fd.Body.List[1].(*ast.DeferStmt)
+		if !ok || !strings.Contains(c13norm(c, ds), "iferr==nil{commit()}") {
+			return fmt.Errorf("%s: no `defer func() { if err == nil { commit() } }()`", fn)
+		}
+		named := false
+		if fd.Type.Results != nil {
+			for _, fl := range fd.Type.Results.List {
+				for _, nm := range fl.Names {
+					if nm.Name == "err" {
+						named = true
+					}
+				}
+			}
+		}
+		if !named {
+			return fmt.Errorf("%s: result err is not named", fn)
+		}
+		for _, nm := range []string{"SetPastEthSignatureCheckpoint", "StoreBatch", "GetStore"} {
+			for _, ce := range Calls(fd.Body, nm) {
+				if len(ce.Args) < 1 || c13norm(c, ce.Args[0]) != "ctx" {
+					return fmt.Errorf("%s: %s is not called on the cache context ctx", fn, nm)
+				}
+			}
+		}
+		// nobody shadows or reassigns ctx
+		n := 0
+		ast.Inspect(fd.Body, func(x ast.Node) bool {
+			if as, ok := x.(*ast.AssignStmt); ok {
+				for _, l := range as.Lhs {
+					if c13norm(c, l) == "ctx" {
+						n++
+					}
+				}
+			}
+			return true
+		})
+		if n != 1 {
+			return fmt.Errorf("%s: ctx is assigned %d times", fn, n)
+		}
+	}
+	c.P("Definition publish_and_archive_in_one_cache_context : bool := true.")
+	// genesis import
+	gf, err := c.Parse("x/skyway/keeper/genesis.go")
+	if err != nil {
+		return err
+	}
+	gi := FindFunc(gf, "", "initBridgeDataFromGenesis")
+	if gi == nil {
+		return fmt.Errorf("initBridgeDataFromGenesis not found")
+	}
+	var loop *ast.RangeStmt
+	ast.Inspect(gi.Body, func(x ast.Node) bool {
+		if rs, ok := x.(*ast.RangeStmt); ok && c13norm(c, rs.X) == "data.Batches" {
+			loop = rs
+		}
+		return true
+	})
+	if loop == nil || len(Calls(loop.Body, "StoreBatch")) != 1 {
+		return fmt.Errorf("initBridgeDataFromGenesis: `for _, batch := range data.Batches { .. k.StoreBatch(ctx, *intBatch) .. }` not recognised")
+	}
+	sb := Calls(loop.Body, "StoreBatch")[0]
+	if c13norm(c, sb) != "k.StoreBatch(ctx,*intBatch)" {
+		return fmt.Errorf("initBridgeDataFromGenesis: StoreBatch call %q not recognised", c13norm(c, sb))
+	}
+	arch := Calls(gi.Body, "SetPastEthSignatureCheckpoint")
+	live := false
+	switch len(arch) {
+	case 0:
+	case 1:
+		inLoop := arch[0].Pos() > loop.Body.Pos() && arch[0].End() < loop.Body.End()
+		if !inLoop || c13norm(c, arch[0]) != "k.SetPastEthSignatureCheckpoint(ctx,intBatch.BytesToSign)" || arch[0].Pos() < sb.Pos() {
+			return fmt.Errorf("initBridgeDataFromGenesis: archive call %q is not `k.SetPastEthSignatureCheckpoint(ctx, intBatch.BytesToSign)` after StoreBatch inside the loop", c13norm(c, arch[0]))
+		}
+		// unconditional: a direct statement of the loop body
+		direct := false
+		for _, st := range loop.Body.List {
+			if es, ok := st.(*ast.ExprStmt); ok && es.X == ast.Expr(arch[0]) {
+				direct = true
+			}
+		}
+		if !direct {
+			return fmt.Errorf("initBridgeDataFromGenesis: the archive call is conditional")
+		}
+		live = true
+	default:
+		return fmt.Errorf("initBridgeDataFromGenesis: %d archive calls", len(arch))
+	}
+	c.P("(* x/skyway/keeper/genesis.go: does InitGenesis archive the BytesToSign of the batches it imports *)")
+	c.P("Definition genesis_archives_live : bool := %v.", live)
+	c.Info("genesis_archives_live", live)
+	return nil
 }
 
 // c13ConfirmChecks: which bytes MsgConfirmBatch verifies a confirmation against -- the checkpoint
